@@ -187,7 +187,7 @@ fn judge_a(rep: &Reporter, prefix: &str, method: &str, ct: &Option<Vec<String>>,
 pub fn check(rep: &Reporter) {
 	let thorough = rep.tier.thorough();
 	rep.set_rule(
-		"(A) 10 HTTP methods × content-type values (the six accepted spellings in every letter-case variant — all 2^k for k ≤ 15 letters, 4 styles per word for longer ones —, 22 near misses, missing header, duplicated header) with a fixed valid call as body, and (A') every method × {none, the accepted spellings in 3 letter-case styles, every near miss, 4 duplicate pairs} as raw HTTP/1.1 requests through Server::start over loopback TCP; (B) 19 bodies (calls, notification, batches, invalid, truncated, non-JSON, 0/1/126/127/128 leading blanks) × splits into consecutive chunks (quick: all splits into ≤3 chunks, thinned for bodies > 90 bytes, and the 4-chunk splits touching an end or on a stride; thorough: all splits into ≤4 chunks of bodies ≤ 64 bytes and into 5 chunks of bodies ≤ 40 bytes) × {no extra chunk, an empty chunk or a blank-only chunk inserted at every boundary incl. front and back} × Content-Length {absent, exact}; differential oracle: (status, body, invocation log) equals the single-frame request of the same bytes; the 1- and 2-chunk splits are repeated on a service whose max_request_body_size equals the body length. Distinct by (method, content-type) resp. (body, frame sequence, content-length); all non-trivial.",
+		"(A) 10 HTTP methods × content-type values (the six accepted spellings in every letter-case variant — all 2^k for k ≤ 15 letters, 4 styles per word for longer ones —, 22 near misses, missing header, duplicated header) with a fixed valid call as body, and (A') every method × {none, the accepted spellings in 3 letter-case styles, every near miss, 4 duplicate pairs} as raw HTTP/1.1 requests through Server::start over loopback TCP; (A'') the same methods × 6 paths with ProxyGetRequestLayer(/health) installed: only GET /health is redirected; (B) 19 bodies (calls, notification, batches, invalid, truncated, non-JSON, 0/1/126/127/128 leading blanks) × splits into consecutive chunks (quick: all splits into ≤3 chunks, thinned for bodies > 90 bytes, and the 4-chunk splits touching an end or on a stride; thorough: all splits into ≤4 chunks of bodies ≤ 64 bytes and into 5 chunks of bodies ≤ 40 bytes) × {no extra chunk, an empty chunk or a blank-only chunk inserted at every boundary incl. front and back} × Content-Length {absent, exact}; differential oracle: (status, body, invocation log) equals the single-frame request of the same bytes; the 1- and 2-chunk splits are repeated on a service whose max_request_body_size equals the body length. Distinct by (method, content-type) resp. (body, frame sequence, content-length); all non-trivial.",
 	);
 	rep.assume("the tower service Server uses per connection is called directly; hyper's own framing is not in the loop");
 	let cfg = || srv::cfg_builder().build();
@@ -326,6 +326,55 @@ pub fn check(rep: &Reporter) {
 				local.case_unique(&format!("tcp:{class}"));
 			},
 		);
+	}
+
+	// ---- (A'') with the optional ProxyGetRequestLayer installed (GET /health is redirected to a method by design):
+	//      every other method on every path is still 405 and runs nothing; GET elsewhere is still 405
+	{
+		use jsonrpsee_server::middleware::http::ProxyGetRequestLayer;
+		let rt = srv::rt();
+		let _e = rt.enter();
+		let log: srv::InvLog = Default::default();
+		let (stop, _handle) = jsonrpsee_server::stop_channel();
+		let layer = ProxyGetRequestLayer::new([("/health", "sync_echo")]).expect("layer");
+		let mut svc = jsonrpsee_server::Server::builder().set_http_middleware(tower::ServiceBuilder::new().layer(layer)).to_service_builder().build(srv::std_module(log.clone()), stop);
+		let mut local = crate::report::Local::default();
+		for method in METHODS {
+			for path in ["/", "/health", "/health?x=1", "/health/", "/other", "/HEALTH"] {
+				for (with_body, ctype) in [(true, Some("application/json")), (false, None), (false, Some("application/json"))] {
+					let mut b = http::Request::builder().method(method).uri(path);
+					if let Some(ct) = ctype {
+						b = b.header("content-type", ct);
+					}
+					let req = b.body(if with_body { FramesBody::single(CALL) } else { FramesBody::new(vec![]) }).unwrap();
+					log.lock().unwrap().clear();
+					let out = rt.block_on(srv::http_call(&mut svc, req));
+					let handlers = log.lock().unwrap().clone();
+					let case = json!({"engine":"ENUM","part":"A-proxy-get","method": method, "path": path, "body": with_body, "content_type": ctype, "status": out.as_ref().map(|o| o.status).ok(), "handlers": handlers});
+					let Ok(out) = out else {
+						rep.violation("service-error", &format!("{method} {path}: service error"), case);
+						continue;
+					};
+					// the layer matches the path component (a query string does not change which path is asked for)
+					let proxied = method == "GET" && path.split('?').next() == Some("/health");
+					if method == "POST" {
+						// POST is judged in part (A); here only that the layer leaves it alone
+						let expect_ok = with_body && ctype.is_some();
+						if expect_ok && (out.status != 200 || handlers != ["sync_echo"]) {
+							rep.violation("proxy-get:post-changed", &format!("POST {path} with the layer installed: status {} handlers {handlers:?}", out.status), case.clone());
+						}
+					} else if proxied {
+						if out.status != 200 || handlers != ["sync_echo"] {
+							rep.violation("proxy-get:configured-path-not-proxied", &format!("GET {path}: status {} handlers {handlers:?}", out.status), case.clone());
+						}
+					} else if out.status != 405 || !handlers.is_empty() {
+						rep.violation(&format!("proxy-get:method:{method}:not-405"), &format!("{method} {path} with ProxyGetRequestLayer(/health) installed: status {} handlers {handlers:?}, expected 405 and no handler", out.status), case.clone());
+					}
+					local.case_unique(if proxied { "proxy-get:proxied" } else { "proxy-get:other" });
+				}
+			}
+		}
+		rep.merge(local);
 	}
 
 	// ---- (B) chunking differential
